@@ -107,8 +107,9 @@ def pos_jobs(ctx, nq, nt, moves, checked, lgq, lgt, families=True):
     if families:
         jobs.append(dict(sub=["epfamily", q(ctx, 40, 1)], shards=q(ctx, 1, 8), timeout=3000))
         jobs.append(dict(sub=["pinfamily", q(ctx, 64, 2)], shards=16, timeout=3000))
+        jobs.append(dict(sub=["castlefamily"], shards=16, timeout=3000))
+        jobs.append(dict(sub=["checkfamily", q(ctx, 3000, 16), q(ctx, 16, 1)], shards=16, timeout=3000))
         if ctx.tier == "thorough":
-            jobs.append(dict(sub=["castlefamily"], timeout=3000))
             jobs.append(dict(sub=["smallfamily", 0], shards=16, timeout=6000))
     return jobs
 
@@ -118,7 +119,7 @@ PROPS["C01"] = dict(
     relevant=r"legal-moves|len/size_hint|model:len|is_legal|LG|accept exactly legal|position-rejected|harness-crash",
     rule=POS_RULE + "; per position: legals() as a sorted set and its len/size_hint/is_empty against Rules.legal_moves, is_legal on random / near-miss / "
          "legal triples, and on every 40th position the full set {m | is_legal m} over all 20480 triples; systematic en-passant family "
-         "(own king x capturer x double-stepped pawn x one enemy slider; quick: 1/40 sample, thorough: all), pin family (own king x 8 directions x distances x pinned piece type x pinner type, + a random extra enemy man; quick: 16 random 1/64 samples, thorough: 16 x 1/2) castling family (thorough) and the EXHAUSTIVE family of all accepted placements of both kings plus one extra man, either side to move (thorough)",
+         "(own king x capturer x double-stepped pawn x one enemy slider; quick: 1/40 sample, thorough: all), pin family (own king x 8 directions x distances x pinned piece type x pinner type, + a random extra enemy man; quick: 16 random 1/64 samples, thorough: 16 x 1/2) castling family (both kings at home + one extra man of any kind on any square, or the enemy king anywhere instead of at home; all rights subsets), the check-giving families of C03 (successors of e.p., promotion, castling, discovered checks) and, thorough only, the EXHAUSTIVE family of all accepted placements of both kings plus one extra man, either side to move (thorough)",
     trusted_base=CORE_TRUST,
     open=["C01_movegen_exact (model legals = Rules.legal_moves for every reachable board) is NOT proved in Coq; it is decided on every generated "
           "position by the correspondence impl = model and the spec monitor impl = Rules"],
